@@ -22,9 +22,9 @@ for l in sys.stdin:
 for k in sorted(res): print(k,res[k])
 '; }
 run > /tmp/seed_with.txt
-git stash -q
+git apply -R $OUT/patch.diff
 run > /tmp/seed_without.txt
-git stash pop -q
+git apply $OUT/patch.diff
 echo "--- verdicts that differ (with change  |  without change):"
 diff /tmp/seed_with.txt /tmp/seed_without.txt > /tmp/seed_diff.txt; cat /tmp/seed_diff.txt
 for d in $DEMOS; do mkdir -p $OUT/demo/$(dirname $d); cp $d $OUT/demo/$d; done
